@@ -7,6 +7,7 @@ A property module (vmon/props/cXX.py) exposes PROP, an instance of `Property`:
   run(spec)                -> Outcome (violations, non-trivial key, counters)
   coverage_gaps(counters, tier) -> list of strings: monitors/classes never reached (=> inconclusive)
 """
+import hashlib
 import importlib
 import json
 import os
@@ -96,6 +97,12 @@ def run_one(prop, spec):
     return out
 
 
+def _short(key):
+    """distinct-case keys are only counted: long ones are replaced by a 64-bit digest"""
+    key = str(key)
+    return key if len(key) <= 24 else hashlib.blake2b(key.encode(), digest_size=8).hexdigest()
+
+
 class Agg:
     def __init__(self):
         self.n = 0
@@ -109,9 +116,9 @@ class Agg:
     def add(self, i, spec, out, keep_samples=3):
         self.n += 1
         if isinstance(out.key, (set, list, tuple, frozenset)):
-            self.keys.update(out.key)
+            self.keys.update(_short(k) for k in out.key)
         elif out.key is not None:
-            self.keys.add(out.key)
+            self.keys.add(_short(out.key))
         for k, v in out.counters.items():
             self.counters[k] = self.counters.get(k, 0) + v
         for s in out.notes:
